@@ -167,9 +167,11 @@ func decodeStringValue(reader ByteRuneReader, flag int32) (string, error) {
 		if err != nil {
 			return "", err
 		}
-		if newLength < length {
+		// every chunk is read with its own declared length (it may be longer than the first one)
+		if newLength > cap(buf) {
+			buf = make([]rune, newLength)
+		} else {
 			buf = buf[:newLength]
-			length = newLength
 		}
 	}
 
